@@ -6,6 +6,7 @@
 #![allow(dead_code, missing_docs)]
 
 use super::model::{mix, NB, NH};
+use super::vk::put;
 
 #[derive(Clone)]
 pub struct SH {
@@ -59,10 +60,10 @@ impl SH {
         if NB - pos - 1 < 8 {
             self.st = mix(self.st, rd(&self.buf, 0), rd(&self.buf, 8));
             let mut block = [0u8; NB];
-            block[NB - 8..].copy_from_slice(&suffix);
+            put(&mut block[NB - 8..], &suffix);
             self.st = mix(self.st, rd(&block, 0), rd(&block, 8));
         } else {
-            self.buf[NB - 8..].copy_from_slice(&suffix);
+            put(&mut self.buf[NB - 8..], &suffix);
             self.st = mix(self.st, rd(&self.buf, 0), rd(&self.buf, 8));
         }
         self.st.to_le_bytes()
@@ -84,7 +85,7 @@ pub fn hmac(key: &[u8], parts: &[&[u8]]) -> [u8; NH] {
     let mut k0 = [0u8; NB];
     if key.len() > NB {
         let hk = hash(&[key]);
-        k0[..NH].copy_from_slice(&hk);
+        put(&mut k0[..NH], &hk);
     } else {
         let mut i = 0;
         while i < key.len() {
